@@ -93,7 +93,43 @@ def reflect(E, st, x, memo):
     return r
 
 
+def _concrete_bool(g):
+    """the clause evaluated on concrete pre/post states must fold to a truth value; otherwise (uninterpreted primitive, symbol
+    that has no executable definition) the replay cannot decide"""
+    if isinstance(g, bool):
+        return g
+    g = z3.simplify(g)
+    if z3.is_true(g):
+        return True
+    if z3.is_false(g):
+        return False
+    s = z3.Solver()
+    s.set('timeout', 5000)
+    s.add(g)
+    r1 = s.check()
+    s2 = z3.Solver()
+    s2.set('timeout', 5000)
+    s2.add(z3.Not(g))
+    r2 = s2.check()
+    if r1 == z3.unsat and r2 != z3.unsat:
+        return False
+    if r2 == z3.unsat and r1 != z3.unsat:
+        return True
+    raise NotReplayable('the clause does not evaluate to a truth value on the concrete states (uninterpreted symbol)')
+
+
 def replay_violation(reg, c, d):
+    """d: result dict with 'witness'. sets d['replayed'] (bool) and d['replay'] (description).  Spec functions are evaluated REVEALED
+    (with their executable definitions) here, whatever the proof kept opaque."""
+    saved = reg.opaque_now
+    reg.opaque_now = set()
+    try:
+        return _replay_violation(reg, c, d)
+    finally:
+        reg.opaque_now = saved
+
+
+def _replay_violation(reg, c, d):
     """d: result dict with 'witness'. sets d['replayed'] (bool) and d['replay'] (description)."""
     w = d.get('witness')
     if not w:
@@ -161,8 +197,7 @@ def replay_violation(reg, c, d):
         cond = spec[1] if isinstance(spec, tuple) else spec
         pre2 = pre.fork()
         pre2.snap = pre
-        g = eval_clause(E, cond, pre2)
-        g = z3.is_true(z3.simplify(g)) if not isinstance(g, bool) else g
+        g = _concrete_bool(eval_clause(E, cond, pre2))
         pcv = resolve_exc(E, en, fi.module)
         did = raised is not None and isinstance(pcv, PyClassV) and isinstance(raised, pcv.py)
         confirmed = (did != g)
@@ -170,8 +205,6 @@ def replay_violation(reg, c, d):
         if (kind == 'ensures') == (raised is None):
             post.frame.env['result'] = reflect(E, post, result, memo)
             cl = d['clause']
-            g = eval_clause(E, cl, post)
-            g = z3.simplify(g) if not isinstance(g, bool) else g
-            confirmed = (g is False) or (not isinstance(g, bool) and z3.is_false(g))
+            confirmed = not _concrete_bool(eval_clause(E, cl, post))
     d['replayed'] = bool(confirmed)
     d['replay'] = desc
